@@ -165,6 +165,8 @@ func c07Dealer(c *c07ctx) {
 		judge(pub, which, "other-polynomial", i, ov, ov.Cmp(v) != 0)
 		judge(pub, which, "zero-value", i, new(big.Int), v.Sign() != 0)
 	}
+	// the same battery that derived objects go through, on the dealt commitment and on NewPubPoly(Info())
+	c.battery().pub("PriPoly.Commit", c.pub, c07SpecOver(g, c.ref, c07base{c.baseKind, c.baseArg, c.base}), 0)
 }
 
 // c07OtherPoly returns a different polynomial of the same threshold; in half
